@@ -6,11 +6,11 @@
 //!
 //! `vh edits-run --cases FILE --out FILE`
 //! One case per line:
-//!   {"id":.., "doc": <text of module Doc>, "mods": {<name>: <text>}, "cls": <unresolved class>,
+//!   {"id":.., "text": <text of module Doc>, "mods": {<name>: <text>}, "cls": <unresolved class>,
 //!    "exporters": [<module names that export cls>],
 //!    "init": {<name>: <text>}?, "hist": [{<name>: <text>}..]? , ..any other fields are copied..}
 //! With "init"/"hist" the server is started on `init`, every element of `hist` is one
-//! `ServerState::update` batch, and a last batch brings every module to `doc`/`mods`.
+//! `ServerState::update` batch, and a last batch brings every module to `text`/`mods`.
 use crate::util::{arg, guarded, silence_panics};
 use samlang_ast::{Location, Position};
 use samlang_errors::ErrorDetail;
@@ -35,7 +35,58 @@ struct Analysis {
   unresolved: Vec<String>,
   other_errors: Vec<String>,
   imports: Vec<(String, String)>,
+  /// every toplevel printed by the real printer, comments included
   toplevels: Vec<String>,
+  /// the same for the text with every comment blanked out ("the same program" does not speak of comments)
+  toplevels_no_comments: Vec<String>,
+}
+
+/// Replaces every comment by spaces (newlines kept), leaving string literals alone.
+pub fn blank_comments(text: &str) -> String {
+  let b = text.as_bytes();
+  let mut out = b.to_vec();
+  let mut i = 0;
+  while i < b.len() {
+    if b[i] == b'"' {
+      i += 1;
+      while i < b.len() && b[i] != b'"' && b[i] != b'\n' {
+        i += if b[i] == b'\\' { 2 } else { 1 };
+      }
+      i += 1;
+    } else if b[i] == b'/' && i + 1 < b.len() && b[i + 1] == b'/' {
+      while i < b.len() && b[i] != b'\n' {
+        out[i] = b' ';
+        i += 1;
+      }
+    } else if b[i] == b'/' && i + 1 < b.len() && b[i + 1] == b'*' {
+      let start = i;
+      i += 2;
+      while i < b.len() && !(b[i] == b'*' && i + 1 < b.len() && b[i + 1] == b'/') {
+        i += 1;
+      }
+      i = (i + 2).min(b.len());
+      for x in &mut out[start..i] {
+        if *x != b'\n' {
+          *x = b' ';
+        }
+      }
+    } else {
+      i += 1;
+    }
+  }
+  String::from_utf8_lossy(&out).to_string()
+}
+
+fn printed_toplevels(text: &str) -> Vec<String> {
+  let mut heap = Heap::new();
+  let d = mref(&mut heap, DOC);
+  let mut es = samlang_errors::ErrorSet::new();
+  let parsed = samlang_parser::parse_source_module_from_text(text, d, &mut heap, &mut es);
+  parsed
+    .toplevels
+    .iter()
+    .map(|t| samlang_printer::pretty_print_toplevel(&heap, 100, &parsed.comment_store, t))
+    .collect()
 }
 
 fn analyze(doc: &str, mods: &BTreeMap<String, String>) -> Result<Analysis, String> {
@@ -73,12 +124,9 @@ fn analyze(doc: &str, mods: &BTreeMap<String, String>) -> Result<Analysis, Strin
       }
     }
     imports.sort();
-    let toplevels = parsed
-      .toplevels
-      .iter()
-      .map(|t| samlang_printer::pretty_print_toplevel(&heap, 100, &parsed.comment_store, t))
-      .collect();
-    Analysis { syntax, unresolved, other_errors, imports, toplevels }
+    let toplevels = printed_toplevels(doc);
+    let toplevels_no_comments = printed_toplevels(&blank_comments(doc));
+    Analysis { syntax, unresolved, other_errors, imports, toplevels, toplevels_no_comments }
   })
 }
 
@@ -214,7 +262,7 @@ pub fn run(args: &[String]) {
     let case: Value = serde_json::from_str(line).unwrap();
     n_cases += 1;
     let id = case["id"].clone();
-    let doc = case["doc"].as_str().unwrap().to_string();
+    let doc = case["text"].as_str().expect("case.text").to_string();
     let mods = texts_of(&case["mods"]);
     let cls = case["cls"].as_str().unwrap().to_string();
     let mut base = json!({"id": id, "cls": cls, "exporters": case["exporters"], "text": doc});
@@ -335,6 +383,7 @@ pub fn run(args: &[String]) {
           rec["unres_after"] = json!([]);
           rec["imports_after"] = json!([]);
           rec["toplevels_equal"] = json!(false);
+          rec["comments_kept_in_place"] = json!(false);
           rec["new_other_errors"] = json!([]);
         }
         Ok(applied) => {
@@ -345,7 +394,8 @@ pub fn run(args: &[String]) {
               rec["syn_after"] = json!(after.syntax);
               rec["unres_after"] = json!(after.unresolved);
               rec["imports_after"] = json!(after.imports.iter().map(|(m, n)| json!([m, n])).collect::<Vec<_>>());
-              rec["toplevels_equal"] = json!(after.toplevels == before.toplevels);
+              rec["toplevels_equal"] = json!(after.toplevels_no_comments == before.toplevels_no_comments);
+              rec["comments_kept_in_place"] = json!(after.toplevels == before.toplevels);
               rec["new_other_errors"] =
                 json!(after.other_errors.iter().filter(|e| !before.other_errors.contains(e)).collect::<Vec<_>>());
             }
